@@ -1,6 +1,7 @@
 //! Wire format shared with the Lean driver.
 //! Terms travel as prefix words: a number is `Var(n)`, `L t` is `Abs`, `A l r` is `App`.
 use lambda_calculus::*;
+use lambda_calculus::reduction::Order;
 
 pub fn enc(t: &Term, out: &mut String) {
     // iterative to survive deep terms
